@@ -144,6 +144,13 @@ func childUsers(f []string, file string) bool {
 		} else {
 			say("appended ok:%d", idx)
 		}
+	case "posts":
+		n, _ := strconv.Atoi(f[1])
+		postServer(n)
+	case "closeposts":
+		postsClose <- struct{}{}
+	case "dirappend":
+		dirAppend(f[1])
 	case "stopmix":
 		atomic.StoreInt32(&mixStop, 1)
 	default:
@@ -316,7 +323,257 @@ func mixServer(file string, nFiles, nCommenters, sleepUs int) {
 	}()
 }
 
+// sayPairs reports idx:name pairs in chunks.
+func sayPairs(tag string, pairs []string) {
+	for len(pairs) > 1000 {
+		say("%s %s", tag, strings.Join(pairs[:1000], ","))
+		pairs = pairs[1000:]
+	}
+	if len(pairs) > 0 {
+		say("%s %s", tag, strings.Join(pairs, ","))
+	}
+}
+
+// postServer: one server process whose requests post articles on board WhoAmI through the real
+// ptt.NewPost until `stopmix`; every successful post is reported as <returned index>:<file name>.
+func postServer(nPosters int) {
+	atomic.StoreInt32(&mixStop, 0)
+	env, err := bbsenv.New(bbsenv.Options{})
+	if err != nil {
+		say("posts-started err:%s", strings.ReplaceAll(err.Error(), " ", "_"))
+		return
+	}
+	fail := func(format string, a ...interface{}) {
+		env.Close()
+		say("posts-started err:%s", strings.ReplaceAll(fmt.Sprintf(format, a...), " ", "_"))
+	}
+	const bid = ptttype.Bid(10)
+	board, err := cache.GetBCache(bid)
+	if err != nil || cstring(board.Brdname[:]) != hdrBoard {
+		fail("fixture: board 10 is not %s", hdrBoard)
+		return
+	}
+	sid := &ptttype.UserID_t{}
+	copy(sid[:], hdrAuthor)
+	uid, su, err := ptt.InitCurrentUser(sid)
+	if err != nil || !su.UserLevel.HasUserPerm(ptttype.PERM_SYSOP) {
+		fail("fixture: no SYSOP account with PERM_SYSOP (%v)", err)
+		return
+	}
+	boardID := &ptttype.BoardID_t{}
+	copy(boardID[:], hdrBoard)
+	dirPath := env.Path("boards", "W", hdrBoard, ".DIR")
+	st, _ := os.Stat(dirPath)
+	n0 := 0
+	if st != nil {
+		n0 = int(st.Size() / int64(ptttype.FILE_HEADER_RAW_SZ))
+	}
+	var wg sync.WaitGroup
+	res := make([][]string, nPosters)
+	nErr := make([]int, nPosters)
+	firstErr := atomic.Value{}
+	for g := 0; g < nPosters; g++ {
+		wg.Add(1)
+		go func(g int) {
+			defer wg.Done()
+			user := *su // every request has its own copy of the user record
+			ip := &ptttype.IPv4_t{}
+			copy(ip[:], "127.0.0.1")
+			for n := 0; atomic.LoadInt32(&mixStop) == 0; n++ {
+				var summary *ptttype.ArticleSummaryRaw
+				var err error
+				out := hx.CallSync(func() string {
+					bidc := *boardID
+					summary, err = ptt.NewPost(&user, uid, &bidc, bid, []byte("test"), []byte(fmt.Sprintf("p%d.%d", g, n)), [][]byte{[]byte("line")}, ip, nil)
+					return ""
+				})
+				if out == "PANIC" {
+					err = fmt.Errorf("PANIC %s", hx.LastPanic)
+				}
+				if err != nil || summary == nil {
+					nErr[g]++
+					if err != nil && err != cmsys.ErrPttLock {
+						firstErr.CompareAndSwap(nil, err.Error())
+					}
+					continue
+				}
+				res[g] = append(res[g], fmt.Sprintf("%d:%s", int(summary.Aid), cstring(summary.FileHeaderRaw.Filename[:])))
+			}
+		}(g)
+	}
+	say("posts-started ok %s %d", dirPath, n0)
+	go func() {
+		wg.Wait()
+		errs := 0
+		for g := range res {
+			sayPairs("posted", res[g])
+			errs += nErr[g]
+		}
+		fe, _ := firstErr.Load().(string)
+		say("posts-done %d %s", errs, strings.ReplaceAll("first-other-error:"+fe, " ", "_"))
+		// the environment (and with it the board index the parent judges) stays until `closeposts`
+		<-postsClose
+		env.Close()
+		say("posts-closed")
+	}()
+}
+
+var postsClose = make(chan struct{}, 1)
+
+// dirAppend: the other server process — appends article entries of its own to the board's .DIR
+// (what a forward / cross-post of a request served there does) until `stopmix`.
+func dirAppend(dirPath string) {
+	atomic.StoreInt32(&mixStop, 0)
+	say("dir-started")
+	go func() {
+		var res []string
+		for seq := 0; atomic.LoadInt32(&mixStop) == 0; seq++ {
+			fh := &ptttype.FileHeaderRaw{}
+			name := fmt.Sprintf("M.%010d.A.OTH", 1000000000+seq)
+			copy(fh.Filename[:], name)
+			copy(fh.Owner[:], "other")
+			idx, err := cmsys.AppendRecord(dirPath, fh, ptttype.FILE_HEADER_RAW_SZ)
+			if err == nil {
+				res = append(res, fmt.Sprintf("%d:%s", int(idx), name))
+			}
+			time.Sleep(20 * time.Microsecond)
+		}
+		sayPairs("posted", res)
+		say("dir-done")
+	}()
+}
+
 // ---------------------------------------------------------------- controller side
+
+// postsRun: several requests of one server post on one board (real ptt.NewPost) while a second process
+// appends to that board's .DIR. P-hat: the index every successful appender (a post: summary.Aid; the other
+// process: AppendRecord's result) was told is told to nobody else, and the record stored there is its own
+// (file name).
+func postsRun(bin string, nPosters, ms int) {
+	dir, _ := os.MkdirTemp("", "verif-c14q-")
+	defer os.RemoveAll(dir)
+	base := filepath.Join(dir, "posts")
+	op := fmt.Sprintf("posts %d %d", nPosters, ms)
+	c := newController([]int{0, 1}, base, bin)
+	defer c.close()
+	l := c.ask(0, 30*time.Second, "posts %d", nPosters)
+	f := strings.Fields(l)
+	if len(f) != 4 || f[0] != "posts-started" || f[1] != "ok" {
+		i := run.Op(op, "harness:"+strings.ReplaceAll(l, " ", "_"), "posts", false)
+		run.Fail(i, "harness:posts-setup", "the server process could not set up its environment: "+l)
+		return
+	}
+	dirPath := f[2]
+	n0, _ := strconv.Atoi(f[3])
+	if l := c.ask(1, 10*time.Second, "dirappend %s", dirPath); l != "dir-started" {
+		i := run.Op(op, "harness:"+strings.ReplaceAll(l, " ", "_"), "posts", false)
+		run.Fail(i, "harness:posts-setup", "the second process did not start: "+l)
+		c.send(0, "stopmix")
+		return
+	}
+	time.Sleep(time.Duration(ms) * time.Millisecond) // the length of the run, nothing is decided by it
+	c.send(1, "stopmix") // the other appender first: the posters' last records are then followed by nothing new
+	c.send(0, "stopmix")
+	type succ struct {
+		who  string
+		idx  int
+		name string
+	}
+	var all []succ
+	doneN, died := 0, false
+	postsDone := ""
+	deadline := time.After(60 * time.Second)
+	for doneN < 2 && !died {
+		select {
+		case l := <-c.misc:
+			f := strings.Fields(l)
+			switch {
+			case len(f) == 2 && f[0] == "child-exit":
+				died = true
+			case len(f) == 2 && f[0] == "posted":
+				for _, p := range strings.Split(f[1], ",") {
+					kv := strings.SplitN(p, ":", 2)
+					if len(kv) == 2 {
+						idx, _ := strconv.Atoi(kv[0])
+						who := "post"
+						if strings.HasSuffix(kv[1], ".OTH") {
+							who = "other"
+						}
+						all = append(all, succ{who, idx, kv[1]})
+					}
+				}
+			case len(f) >= 1 && f[0] == "posts-done":
+				postsDone = l
+				doneN++
+			case l == "dir-done":
+				doneN++
+			}
+		case <-deadline:
+			died = true
+		}
+	}
+	if died {
+		i := run.Op(op, "TIMEOUT", "posts", false)
+		run.Fail(i, "stall", "the posting run did not finish")
+		c.send(0, "closeposts")
+		return
+	}
+	// both processes have stopped appending: the board index is final
+	b, _ := os.ReadFile(dirPath)
+	if l := c.ask(0, 20*time.Second, "closeposts"); l != "posts-closed" {
+		run.Note("posts: the server process did not confirm closing its environment: " + l)
+	}
+	sz := int(ptttype.FILE_HEADER_RAW_SZ)
+	nameAt := func(idx int) string {
+		if idx < 1 || idx*sz > len(b) {
+			return "<none>"
+		}
+		return cstring(b[(idx-1)*sz : (idx-1)*sz+len(ptttype.Filename_t{})])
+	}
+	var fails []failure
+	nDup, nLost, nPosts, nOther := 0, 0, 0, 0
+	seen := map[int]succ{}
+	for _, s := range all {
+		if s.who == "post" {
+			nPosts++
+		} else {
+			nOther++
+		}
+		if prev, dup := seen[s.idx]; dup {
+			if nDup++; nDup <= 3 {
+				fails = append(fails, failure{"posts:double-assign", fmt.Sprintf("index %d was reported to two successful appenders: %s %s and %s %s", s.idx, prev.who, prev.name, s.who, s.name)})
+			}
+		}
+		seen[s.idx] = s
+		if s.idx <= n0 {
+			fails = append(fails, failure{"posts:overwrote-old", fmt.Sprintf("%s %s was told index %d inside the %d old entries", s.who, s.name, s.idx, n0)})
+		}
+		if got := nameAt(s.idx); got != s.name {
+			if nLost++; nLost <= 3 {
+				fails = append(fails, failure{"posts:lost-record", fmt.Sprintf("%s %s was told index %d but the entry stored there is %s", s.who, s.name, s.idx, got)})
+			}
+		}
+	}
+	if len(b)%sz != 0 {
+		fails = append(fails, failure{"posts:torn", fmt.Sprintf("the board index has %d bytes: no whole number of entries", len(b))})
+	}
+	if nPosts == 0 || nOther == 0 {
+		fails = append(fails, failure{"harness:posts-idle", fmt.Sprintf("%d successful posts, %d appends of the other process: the run shows nothing (%s)", nPosts, nOther, postsDone)})
+	}
+	verdict := "consistent"
+	if len(fails) > 0 {
+		verdict = "inconsistent"
+	}
+	i := run.Op(op, verdict, "posts", true)
+	run.Extra["posts_successes"] = nPosts
+	run.Extra["posts_other_appends"] = nOther
+	run.Extra["posts_done"] = postsDone
+	for k, fl := range fails {
+		if k < 6 {
+			run.Fail(i, fl.key, fl.what)
+		}
+	}
+}
 
 func postLogImage(title string) []byte {
 	pl := &ptt.PostLog{}
